@@ -572,18 +572,39 @@ impl DocumentInline {
     pub fn key_range(&self) -> Option<InlineRange> {
         match self {
             DocumentInline::Link(link) => {
-                Some(InlineRange {
-                    start: Position {
-                        line: link.inline_range.start.line,
-                        // Exclude title and parentheses from the range
-                        character: link.inline_range.start.character
-                            + self.to_plain_text().encode_utf16().count()
-                            + 3,
+                let start = link.inline_range.start.clone();
+                let end = link.inline_range.end.clone();
+                let url_len = link.target.url.encode_utf16().count();
+                let at = |line: usize, character: usize| Position { line, character };
+
+                Some(match link.link_type {
+                    // [[key]] and [[key|text]]
+                    LinkType::WikiLink | LinkType::WikiLinkPiped => InlineRange {
+                        start: at(start.line, start.character + 2),
+                        end: at(start.line, start.character + 2 + url_len),
                     },
-                    end: Position {
-                        line: link.inline_range.end.line,
-                        // Exclude title and parentheses from the range
-                        character: link.inline_range.end.character - 1,
+                    // <url>
+                    LinkType::Regular
+                        if start.line == end.line
+                            && end.character == start.character + url_len + 2 =>
+                    {
+                        InlineRange {
+                            start: at(start.line, start.character + 1),
+                            end: at(end.line, end.character.saturating_sub(1)),
+                        }
+                    }
+                    // [text](url "title"): everything between the parentheses, as before
+                    LinkType::Regular if !link.title.is_empty() => InlineRange {
+                        start: at(
+                            start.line,
+                            start.character + self.to_plain_text().encode_utf16().count() + 3,
+                        ),
+                        end: at(end.line, end.character.saturating_sub(1)),
+                    },
+                    // [text](url): the url stands before the closing parenthesis
+                    LinkType::Regular => InlineRange {
+                        start: at(end.line, end.character.saturating_sub(1 + url_len)),
+                        end: at(end.line, end.character.saturating_sub(1)),
                     },
                 })
             }
